@@ -22,7 +22,13 @@ RULE = ("Hypothesis builds series of 2..40 (thorough ..120) points from the shar
         "scale_x, scale_y) with integer, dyadic and float arguments (scales non-zero, both signs), optionally after "
         "a trend so that working and reference ordinates differ. Normalise: process.normalize and "
         "Weaver.normalize_x/_y with default, integer and float target ranges (narrow down to 2e-3 of the "
-        "magnitude), optionally after a trend and a shift/scale. Non-trivial = non-zero trend / non-identity map "
+        "magnitude), optionally after a trend and a shift/scale. same_callable: ONE callable object applied in a "
+        "sequence of 3..8 calls (process.trend, linear_trend, fresh Weaver, one long-lived Weaver with shift_x / "
+        "scale_x / shift_y in between) to 2..4 axes that share length and both end points but not the interior "
+        "spacing (one uniform), plus optionally an unrelated axis, two ordinate vectors each, handed over as fresh "
+        "arrays, lists or the same caller arrays edited in place, some steps repeated verbatim after the previous "
+        "result has been overwritten. normalize_seq: 3..8 normalize calls on arrays sharing length, first / last "
+        "element, minimum and maximum. Non-trivial = non-zero trend / non-identity map "
         "on a series with non-constant ordinates; distinct = distinct full input.")
 ASSUMPTIONS = [
     "x strictly increasing with >= 2 samples; trend callables restricted to the generated polynomial / sinusoid / "
@@ -39,6 +45,9 @@ ASSUMPTIONS = [
     "order is asserted non-strictly (a_i < a_j => r_i <= r_j, a_i == a_j => r_i == r_j); ratios "
     "(r_i - r_min)/(r_max - r_min) compared with the exact rational (a_i - a_min)/(a_max - a_min) to 1e-9",
     "negative scale_x makes x decreasing; only the pointwise map is asserted there, no later operation uses it",
+    "the first verdict for a case is kept for the rest of the process, so that a library whose answer depends on "
+    "earlier calls (caches, counters) yields a violation rather than a 'flaky' harness error; a replay of such a "
+    "case in isolation may then pass",
 ]
 TECHNIQUE = ("Hypothesis-generated series, data-described trend callables and operation programs checked against "
              "closed forms written from the statement (per-sample Python arithmetic, exact rationals for the "
@@ -858,26 +867,26 @@ def normalize_seq_body(ctx, case):
 
 
 SUBCHECKS = [
-    Sub("trend", "hyp", sticky(trend_body), strategy=trend_case, quick=500, thorough=10000,
+    Sub("trend", "hyp", sticky(trend_body), strategy=trend_case, quick=400, thorough=10000,
         clause="process.trend / linear_trend add f(x_i) resp. f(x_i/(x_last-x_first)); x and the caller's arrays "
                "untouched; zero trend is the identity"),
-    Sub("additive", "hyp", sticky(additive_body), strategy=additive_case, quick=500, thorough=10000,
+    Sub("additive", "hyp", sticky(additive_body), strategy=additive_case, quick=400, thorough=10000,
         clause="trends add up: trend(g) after trend(f) == trend(f+g) == y + f + g (process and Weaver level)"),
-    Sub("weaver_trend", "hyp", sticky(weaver_trend_body), strategy=weaver_trend_case, quick=500, thorough=10000,
+    Sub("weaver_trend", "hyp", sticky(weaver_trend_body), strategy=weaver_trend_case, quick=400, thorough=10000,
         clause="Weaver.trend: same closed form; x, reference, original and caller arrays untouched"),
-    Sub("shift_scale", "hyp", sticky(shift_scale_body), strategy=shift_scale_case, quick=500, thorough=10000,
+    Sub("shift_scale", "hyp", sticky(shift_scale_body), strategy=shift_scale_case, quick=400, thorough=10000,
         clause="shift_x/shift_y/scale_x/scale_y act as x+s, y+s, c*x, c*y (bitwise) on working and reference series "
                "after every step of a 1..5 step program; original and caller arrays untouched"),
-    Sub("normalize", "hyp", sticky(normalize_body), strategy=normalize_case, quick=500, thorough=10000,
+    Sub("normalize", "hyp", sticky(normalize_body), strategy=normalize_case, quick=400, thorough=10000,
         clause="process.normalize: min -> min_val exactly, max -> max_val (2 ulp), order and relative spacing kept"),
-    Sub("weaver_normalize", "hyp", sticky(weaver_normalize_body), strategy=weaver_normalize_case, quick=500, thorough=10000,
+    Sub("weaver_normalize", "hyp", sticky(weaver_normalize_body), strategy=weaver_normalize_case, quick=400, thorough=10000,
         clause="Weaver.normalize_x/_y: the same properties for working and reference series, other coordinate "
                "untouched"),
     Sub("same_callable", "hyp", sticky(same_callable_body), strategy=same_callable_case, quick=200, thorough=4000,
         clause="every call is judged by the closed form on ITS axis: one callable object applied in sequence to axes "
                "sharing length and end points but not the interior spacing, to caller arrays edited in place, to "
                "the same objects twice after scribbling on the first result, and repeatedly to one long-lived Weaver"),
-    Sub("normalize_seq", "hyp", sticky(normalize_seq_body), strategy=normalize_seq_case, quick=200, thorough=3000,
+    Sub("normalize_seq", "hyp", sticky(normalize_seq_body), strategy=normalize_seq_case, quick=150, thorough=3000,
         clause="normalize is a function of its arguments only: repeated calls on arrays sharing length, first/last "
                "element, minimum and maximum (same object edited in place or fresh) each satisfy the normalise clause"),
 ]
